@@ -1,8 +1,8 @@
-import CashewsVerif.Lemmas.Disable
+import CashewsVerif.Lemmas.DisableConc
 /-
 C17 — keys are routed by longest prefix; disabling truly bypasses the cache.
 Property theorems only; helper lemmas live in `Lemmas/Route.lean`, `Lemmas/RouteGroup.lean`,
-`Lemmas/Disable.lean`; the models in `Model/Route.lean`, `Model/Disable.lean`.
+`Lemmas/Disable.lean`, `Lemmas/DisableConc.lean`; the models in `Model/Route.lean`, `Model/Disable.lean`.
 
 Strings are lists of code points: `[]` = "", `[97]` = "a", `[98]` = "b", `[97,98]` = "ab",
 `[97,58]` = "a:".
@@ -360,6 +360,68 @@ theorem decorator_runs_body_when_get_disabled (t : Table) (w : World) (c : Nat) 
       simp [List.filter_append]
     · exact ⟨_, rfl, rfl, rfl⟩
 
+/-- **Overlapping calls: while the cache is fully disabled every call runs its own body.**
+Take any table with a backend, either setting of `protected`, any initial control state and ANY
+interleaving of call starts (any contexts, equal or different cache keys), body returns (in any
+order, also of calls that never started or already ended) and control operations, such that every
+call starts in a context that sees the cache fully disabled at that moment.  Let the bodies still
+running return.  Then the body was executed exactly once per call, no backend command was issued,
+nothing was stored, no call is left waiting, none failed, and the `k`-th call that started was
+handed the outcome of execution number `k` — the one it started itself: no call is joined to
+another call's execution (no single-flight coalescing under a full disable). -/
+theorem decorators_bypass_when_fully_disabled_concurrent (t : Table) (hreg : t.regs ≠ [])
+    (prot : Bool) (w : World) (evs : List CEv) (hfull : AllStartsFull t w evs) :
+    let s := cdrain (crun t prot ⟨w, CSt.init⟩ evs).s
+    s.execs = (CEv.starts evs).length ∧ s.calls = [] ∧ s.cached = [] ∧ s.flights = [] ∧ s.nc = [] ∧
+      s.results.Perm (CEv.starts evs).zipIdx := by
+  have h := AllBypass.run hreg prot evs ⟨w, CSt.init⟩ [] AllBypass.init hfull
+  simp only [List.nil_append] at h
+  have hd := AllBypass.drainN (crun t prot ⟨w, CSt.init⟩ evs).s.flights.length h
+  have hfl := hd.2 (Nat.le_refl _)
+  have hp := hd.1.perm
+  rw [hfl] at hp
+  simp only [List.map_nil, List.append_nil] at hp
+  exact ⟨hd.1.execs, hd.1.calls, hd.1.cached, hfl, hd.1.nc, hp⟩
+
+/-- **A fully disabled call is never shared, whatever else is going on.**  In ANY history of the
+decorated function — earlier events `before`, later events `after`, other calls that see the cache
+enabled (and are coalesced by `thunder_protection`, hit the cache, store results), control
+operations, body returns in any order — a call `c` that starts in a context that sees the cache
+fully disabled starts execution number `e` of the body at once (the counter goes up by one, no
+backend command is issued), and from then on, also after all running bodies returned: `e` is never
+stored in the cache, no other caller is ever handed `e`'s outcome, and `c` itself is either still
+running `e` or has been handed exactly `e`. -/
+theorem fully_disabled_call_is_never_shared (t : Table) (hreg : t.regs ≠ []) (prot : Bool)
+    (w : World) (before after : List CEv) (c ctx : Nat) (key : List Nat)
+    (hfull : facadeFullDisable t (crun t prot ⟨w, CSt.init⟩ before).w ctx = true) :
+    let r0 := crun t prot ⟨w, CSt.init⟩ before
+    let r1 := cstep t prot r0 (.start c ctx key)
+    let e := r0.s.execs
+    (r1.s.execs = e + 1 ∧ r1.s.calls = r0.s.calls ∧ ⟨c, key, .bypass e⟩ ∈ r1.s.flights) ∧
+    ∀ s, (s = (crun t prot ⟨w, CSt.init⟩ (before ++ [.start c ctx key] ++ after)).s ∨
+          s = cdrain (crun t prot ⟨w, CSt.init⟩ (before ++ [.start c ctx key] ++ after)).s) →
+      (∀ p ∈ s.cached, p.2 ≠ e) ∧ (∀ p ∈ s.results, p.2 = e → p.1 = c) ∧
+      (∀ f ∈ s.flights, f.role.exec? = some e → f = ⟨c, key, .bypass e⟩) ∧
+      (⟨c, key, .bypass e⟩ ∈ s.flights ∨ (c, e) ∈ s.results) := by
+  intro r0 r1 e
+  have hb : Bounded r0.s := Bounded.run t prot before ⟨w, CSt.init⟩ Bounded.init
+  have hs : r1.s = { r0.s with execs := r0.s.execs + 1, flights := r0.s.flights ++ [⟨c, key, .bypass r0.s.execs⟩] } := by
+    have hfull' : facadeFullDisable t r0.w ctx = true := hfull
+    simp [r1, cstep, cstart, regs_isEmpty_false hreg, hfull']
+  have hp1 : Private r1.s c key e := Private.of_start hb hreg prot r0.w c ctx key hfull
+  refine ⟨⟨by rw [hs], by rw [hs], by rw [hs]; simp [e]⟩, ?_⟩
+  have hrun : crun t prot ⟨w, CSt.init⟩ (before ++ [.start c ctx key] ++ after) =
+      crun t prot r1 after := by
+    rw [crun_append, crun_append]
+    rfl
+  have hp2 : Private (crun t prot r1 after).s c key e := Private.run t prot after r1 hp1
+  intro s hs'
+  rw [hrun] at hs'
+  rcases hs' with rfl | rfl
+  · exact ⟨hp2.cached, hp2.results, hp2.flights, hp2.mine⟩
+  · have hp3 := Private.drainN (crun t prot r1 after).s.flights.length hp2
+    exact ⟨hp3.cached, hp3.results, hp3.flights, hp3.mine⟩
+
 /-- **The transaction wrapper changes nothing about disabling**: inside `cache.transaction()` every
 public command takes the same decisions — same answer shape, same backend commands with the same keys
 for the same backends — as outside (9290b53: the wrapper delegates its control state). -/
@@ -491,6 +553,45 @@ example : (decoratedCalls T1 Wfull 0 [107] 3 DecSt.init).map (fun s => (s.execs,
 -- enabled: first call misses (get, set), the next two hit (get): the body ran once
 example : (decoratedCalls T1 (World.init true) 0 [107] 3 DecSt.init).map
     (fun s => (s.execs, s.calls.map (·.cmd))) = some (1, [.get, .set, .get, .get]) := by decide
+-- three overlapping calls under a full disable (two with the same key), bodies return out of order:
+-- three executions, nothing issued, each caller gets its own execution
+example : let s := cdrain (crun T1 true ⟨Wfull, CSt.init⟩
+      [.start 10 0 [107], .start 11 0 [107], .start 12 0 [108], .finish 11, .finish 10]).s
+    (s.execs, s.results, s.calls.length, s.flights.length) = (3, [(11, 1), (10, 0), (12, 2)], 0, 0) := by
+  decide
+example : AllStartsFull T1 Wfull
+    [.start 10 0 [107], .start 11 0 [107], .start 12 0 [108], .finish 11, .finish 10] := by
+  simp only [AllStartsFull]; decide
+-- the same calls with the cache enabled and `protected=True`: the second call joins the first
+-- (one execution for key "k"), both are handed execution 0; "l" runs its own
+example : let s := cdrain (crun T1 true ⟨World.init true, CSt.init⟩
+      [.start 10 0 [107], .start 11 0 [107], .start 12 0 [108], .finish 11, .finish 10]).s
+    (s.execs, s.results, s.calls.map (·.cmd)) =
+      (2, [(10, 0), (11, 0), (12, 1)], [.get, .get, .set, .set]) := by decide
+-- `protected=False`, enabled: no joining, both miss and both store
+example : let s := cdrain (crun T1 false ⟨World.init true, CSt.init⟩
+      [.start 10 0 [107], .start 11 0 [107]]).s
+    (s.execs, s.results, s.calls.map (·.cmd)) = (2, [(10, 0), (11, 1)], [.get, .get, .set, .set]) := by
+  decide
+-- mixed: the child (context 1) re-enabled the cache for itself and has a protected call in flight;
+-- the parent (context 0, fully disabled) calls with the same key: it runs its own body and the
+-- child's later call joins the child's, never the parent's
+example : let w := ctlRun T1 (World.init true) [.disable 0 [] [], .fork 0 1, .enable 1 [] []]
+    let s := cdrain (crun T1 true ⟨w, CSt.init⟩
+      [.start 10 1 [107], .start 11 0 [107], .start 12 1 [107], .finish 11, .finish 10]).s
+    (s.execs, s.results) = (2, [(11, 1), (10, 0), (12, 0)]) := by decide
+-- a control operation between the calls: enabled call in flight, then the cache is disabled and
+-- the same key is called again: own body, and the first call still stores its result
+example : let s := cdrain (crun T1 true ⟨World.init true, CSt.init⟩
+      [.start 10 0 [107], .ctl (.disable 0 [] []), .start 11 0 [107]]).s
+    (s.execs, s.results, s.calls.map (·.cmd), s.cached) =
+      (2, [(10, 0), (11, 1)], [.get, .set], [([107], 0)]) := by decide
+-- sequential calls through the overlapping-calls model agree with `decoratedCalls`
+example : let s := (crun T1 true ⟨World.init true, CSt.init⟩
+      [.start 0 0 [107], .finish 0, .start 1 0 [107], .start 2 0 [107]]).s
+    (some (s.execs, s.calls) : Option (Nat × List Call)) =
+      (decoratedCalls T1 (World.init true) 0 [107] 3 DecSt.init).map (fun d => (d.execs, d.calls)) := by
+  decide
 -- disabling() nests by plain set arithmetic: leaving the inner block re-enables its commands
 example : isDisable (ctlRun T1 (World.init true)
     [.disable 0 [.get] [], .disable 0 [.get, .set] [], .exitDisabling 0 [.get, .set] []]) 0 0 [.get]
